@@ -8,7 +8,10 @@ package race
 import (
 	"fmt"
 	"os"
+	"os/exec"
 	"runtime/debug"
+	"strconv"
+	"strings"
 	"sync"
 	"testing"
 
@@ -231,4 +234,120 @@ func run(t *rapid.T) {
 			}
 		}
 	}
+}
+
+// ---- first use ----
+//
+// State that lives in a package variable and is set up lazily, or grown the
+// first time something larger than before comes along, is touched by exactly
+// one call per process: whichever comes first. In a worker that runs
+// thousands of worlds that call has long happened by the time two goroutines
+// meet on it. TestC11FirstUse therefore starts a fresh process per trial
+// (the same test binary, re-executed) whose first contact with qframe beyond
+// building the frames is several goroutines doing the same operation at once.
+// The trial is a function of one drawn key (the child's -rapid.seed); the
+// race detector is the oracle, a panic that only shows under concurrency is
+// reported as well.
+
+func TestC11FirstUse(t *testing.T) {
+	if os.Getenv("VERIF_FIRSTUSE_CHILD") != "" {
+		rapid.Check(t, firstUseChild)
+		return
+	}
+	rapid.Check(t, firstUseParent)
+}
+
+func firstUseParent(t *rapid.T) {
+	key := rapid.Uint64().Draw(t, "childkey")
+	core.Eval()
+	cmd := exec.Command(os.Args[0], "-test.run", "^TestC11FirstUse$", "-test.count=1", "-test.cpu=4",
+		"-rapid.checks=1", "-rapid.seed="+strconv.FormatUint(key, 10), "-rapid.nofailfile", "-test.timeout=5m")
+	env := []string{"VERIF_FIRSTUSE_CHILD=1"}
+	for _, e := range os.Environ() {
+		if !strings.HasPrefix(e, "VERIF_STATS=") && !strings.HasPrefix(e, "VERIF_TRACE=") {
+			env = append(env, e)
+		}
+	}
+	cmd.Env = env
+	out, err := cmd.CombinedOutput()
+	core.Steps(1)
+	core.Nontrivial(core.Hash64("firstuse", key))
+	core.Probe("first-use-trials")
+	if err == nil {
+		if i := strings.Index(string(out), "FIRSTUSE "); i >= 0 {
+			line := string(out)[i:]
+			if j := strings.IndexByte(line, '\n'); j >= 0 {
+				line = line[:j]
+			}
+			for _, f := range strings.Fields(line)[1:] {
+				core.Probe("first-use:" + f)
+			}
+		}
+		return
+	}
+	if ee, ok := err.(*exec.ExitError); ok && (ee.ExitCode() == 66 || strings.Contains(string(out), "WARNING: DATA RACE")) {
+		// the report of the child becomes the report of this worker
+		fmt.Printf("first-use trial with child key %d:\n%s\n", key, out)
+		core.Flush()
+		os.Exit(66)
+	}
+	if strings.Contains(string(out), "FIRSTUSE-PANIC") {
+		core.Violation(t, "C11:I2:panic-only-when-concurrent", "an operation panicked when several goroutines ran it as their first use of the library (child key "+strconv.FormatUint(key, 10)+"): "+clip(string(out)), map[string]interface{}{"child_key": key, "output": clip(string(out))})
+		return
+	}
+	t.Fatalf("harness: first-use child failed: %v\n%s", err, clip(string(out)))
+}
+
+func firstUseChild(t *rapid.T) {
+	b := fam.Bounds{MaxRows: 40, MaxCols: 4, MaxMembers: 8, LongNamesOdds: 2, Cold: true}
+	w := fam.NewWorld(t, b)
+	fam.SkipObservation = true
+	defer func() { fam.SkipObservation = false }()
+	nbuild := rapid.IntRange(0, 2).Draw(t, "nbuild")
+	var prev *fam.OpDesc
+	for i := 0; i < nbuild; i++ {
+		d := fam.DrawSibling(t, prev)
+		prev = &d
+		out := safeRun(fam.Resolve(w, d, -1))
+		for _, m := range out.New {
+			w.AddLight(m)
+		}
+	}
+	nclients := rapid.IntRange(2, 6).Draw(t, "nclients")
+	d0 := fam.DrawOp(t)
+	// every kind of operation equally often (rapid's small integers lean towards 0)
+	d0.Kind = int(core.Hash64(rapid.Uint64().Draw(t, "kindkey")) % 64)
+	if rapid.Bool().Draw(t, "onlast") {
+		d0.Last = true
+	}
+	observe := rapid.Bool().Draw(t, "observe")
+	kind := ""
+	panics := make([]string, nclients)
+	start := make(chan struct{})
+	var wg sync.WaitGroup
+	for c := 0; c < nclients; c++ {
+		c := c
+		local := w.Fork()
+		ex := fam.Resolve(local, d0, c)
+		kind = ex.Kind
+		wg.Add(1)
+		go func() {
+			defer wg.Done()
+			<-start
+			panics[c] = safeRun(ex).Panic
+		}()
+	}
+	fam.SkipObservation = !observe
+	close(start)
+	wg.Wait()
+	// a panic counts only if the same operation does not panic on its own
+	for c, p := range panics {
+		if p != "" {
+			if alone := safeRun(fam.Resolve(w, d0, c)); alone.Panic == "" {
+				fmt.Printf("FIRSTUSE-PANIC %s\n", p)
+				os.Exit(3)
+			}
+		}
+	}
+	fmt.Printf("FIRSTUSE op:%s\n", kind)
 }
